@@ -14,6 +14,12 @@ CLAIMED = {
         note="Trusted base: the Factorio 2.0 circuit-network model (factosim/world.py, written from documentation, cannot be validated against the game offline) and the reference interpreter (factosim/lang.py). Runs whose blueprint shows the structural trigger of a reproduced known finding are excluded and counted.",
         ref="DESIGN.md §8 C01",
     ),
+    "C03": dict(
+        engine="factosim-exec",
+        text="Seeded exploration over histories: programs with 1-3 write-gated cells are compiled under an injected layout fault plan; exactly one declared input changes per step and is held past the settle bound computed from the blueprint; after every step each cell's directly exported read, every computed reader and every lamp condition is compared with a sample-and-hold reference cell stepped once per history step; stability after settling is monitored for extra ticks. Race steps (one input reaching enable and data while the enable turns off) and power-up pulses of computed enables are relaxed and counted.",
+        note="Trusted base: world model + reference interpreter. Enables are generated hazard-free (each input at most once) and never negative; static-hazard enables are outside the checked class (DESIGN.md §12).",
+        ref="DESIGN.md §8 C03",
+    ),
 }
 
 NOT_YET = {}
